@@ -1,6 +1,7 @@
 """C13 — async callables get the same contract semantics as sync ones (paired sync/async renderings)."""
 import copy
 import inspect
+import sys
 from typing import Any, Dict, List, Tuple
 
 from vkit import gen, probe, prog, runner
@@ -380,8 +381,10 @@ def run_nested_pairs(w) -> None:
     sync_l = prog.load_source(NESTED_SOURCE.format(a="", w=""), w.scratch())
     async_l = prog.load_source(NESTED_SOURCE.format(a="async ", w="await "), w.scratch())
     try:
-        for cname in ("K", "L"):
-            for mname in ("outer", "twice", "inner"):
+        import asyncio  # pylint: disable=import-outside-toplevel
+
+        for cname, mname, how in [(c, m, h) for c in ("K", "L") for m in ("outer", "twice", "inner") for h in ("driven-by-hand", "in-a-task")]:
+            if True:  # pylint: disable=using-constant-test
                 traces = []
                 for loaded in (sync_l, async_l):
                     obj = getattr(loaded.module, cname)()
@@ -389,7 +392,7 @@ def run_nested_pairs(w) -> None:
                     try:
                         res = getattr(obj, mname)()
                         if inspect.iscoroutine(res):
-                            res = probe.drive(res)
+                            res = probe.drive(res) if how == "driven-by-hand" else asyncio.run(res)
                         outcome = "return {!r}".format(res)
                     except BaseException as err:  # pylint: disable=broad-except
                         outcome = "raise " + type(err).__name__
@@ -397,11 +400,145 @@ def run_nested_pairs(w) -> None:
                 w.count("pairs_compared")
                 w.count("nested_pairs_compared")
                 w.count("events_compared", len(traces[0][0]))
-                w.case(("nested-pair", cname, mname))
+                w.case(("nested-pair", cname, mname, how))
                 if traces[0] != traces[1]:
-                    w.violation("C13/nested-calls-on-the-same-object-differ-in-the-async-rendering", "{}().{}(): sync {} vs async {}".format(
-                        cname, mname, traces[0], traces[1]), {"nested_pair": mname})
+                    w.violation("C13/nested-calls-on-the-same-object-differ-in-the-async-rendering", "{}().{}() ({}): sync {} vs async {}".format(
+                        cname, mname, how, traces[0], traces[1]), {"nested_pair": mname})
     finally:
+        sync_l.unload()
+        async_l.unload()
+
+
+REENTRANT_FUNCTIONS_SOURCE = '''
+import icontract
+
+
+@icontract.require(lambda x: HUB.cond("pre-clamp", {{"x": x}}))
+{a}def clamp(x):
+    HUB.body("clamp", {{"x": x}})
+    return max(x, 0)
+
+
+{a}def is_fixed_point(result):
+    """A postcondition which uses the function it describes."""
+    HUB.cond("post-normalize", {{"result": result}})
+    return ({w}normalize(result)) == result
+
+
+{a}def seen_before(x):
+    HUB.capture("snap-normalize", {{"x": x}})
+    return {w}normalize(0)
+
+
+@icontract.snapshot(seen_before, name="zero")
+@icontract.ensure(is_fixed_point)
+@icontract.ensure(lambda OLD: OLD.zero == 0)
+{a}def normalize(x):
+    HUB.body("normalize", {{"x": x}})
+    if x < 0:
+        return {w}clamp(x)
+    return x
+
+
+{a}def smaller_is_fine(n):
+    HUB.cond("pre-fact", {{"n": n}})
+    return n <= 0 or ({w}fact(n - 1)) >= 1
+
+
+{a}def grows(n, result):
+    HUB.cond("post-fact", {{"n": n}})
+    return n <= 0 or result >= ({w}fact(n - 1))
+
+
+@icontract.require(smaller_is_fine)
+@icontract.ensure(grows)
+{a}def fact(n):
+    HUB.body("fact", {{"n": n}})
+    return 1 if n <= 0 else n * ({w}fact(n - 1))
+
+
+{a}def pong_agrees(x):
+    HUB.cond("pre-ping", {{"x": x}})
+    return ({w}pong(x)) == x
+
+
+{a}def ping_agrees(x, result):
+    HUB.cond("post-pong", {{"x": x}})
+    return ({w}ping(x)) == result
+
+
+@icontract.require(pong_agrees)
+{a}def ping(x):
+    HUB.body("ping", {{"x": x}})
+    return {w}clamp(x)
+
+
+@icontract.ensure(ping_agrees)
+{a}def pong(x):
+    HUB.body("pong", {{"x": x}})
+    return {w}clamp(x)
+
+
+{a}def settled(self, result):
+    HUB.cond("post-settle", {{"x": self.x}})
+    return ({w}self.settle()) == result
+
+
+@icontract.invariant(lambda self: HUB.inv("inv", self) and self.x >= 0)
+class Box(icontract.DBC):
+    def __init__(self):
+        self.x = 1
+
+    {a}def peek(self):
+        HUB.body("peek", {{"x": self.x}})
+        return self.x
+
+    @icontract.ensure(settled)
+    {a}def settle(self):
+        HUB.body("settle", {{"x": self.x}})
+        return ({w}self.peek()) + ({w}clamp(self.x))
+'''
+
+REENTRANT_CALLS = [("normalize", (5,)), ("normalize", (-3,)), ("normalize", (0,)), ("fact", (0,)), ("fact", (1,)), ("fact", (3,)), ("ping", (2,)),
+                   ("ping", (-2,)), ("pong", (4,)), ("pong", (-1,)), ("settle", ())]
+
+
+def run_reentrant_function_pairs(w) -> None:
+    """Contracts which use the function they describe (after the body has made other checked calls), recursion from the body, mutually
+    referring functions: the `async def` rendering must give the trace and the outcome of the `def` rendering - driven by hand (no
+    event loop) as well as inside a task of a running event loop."""
+    import asyncio  # pylint: disable=import-outside-toplevel
+
+    sync_l = prog.load_source(REENTRANT_FUNCTIONS_SOURCE.format(a="", w=""), w.scratch())
+    async_l = prog.load_source(REENTRANT_FUNCTIONS_SOURCE.format(a="async ", w="await "), w.scratch())
+    old_limit = sys.getrecursionlimit()
+    try:
+        for name, args in REENTRANT_CALLS:
+            for how in ("driven-by-hand", "in-a-task"):
+                traces = []
+                for loaded in (sync_l, async_l):
+                    target = getattr(loaded.module.Box(), name) if name == "settle" else getattr(loaded.module, name)
+                    loaded.hub.reset()
+                    sys.setrecursionlimit(len(inspect.stack(0)) + 400)
+                    try:
+                        res = target(*args)
+                        if inspect.iscoroutine(res):
+                            res = probe.drive(res) if how == "driven-by-hand" else asyncio.run(res)
+                        outcome = "return {!r}".format(res)
+                    except BaseException as err:  # pylint: disable=broad-except
+                        outcome = "raise " + type(err).__name__
+                    finally:
+                        sys.setrecursionlimit(old_limit)
+                    traces.append(([(e.kind, e.id) for e in loaded.hub.events], outcome))
+                w.count("pairs_compared")
+                w.count("reentrant_function_pairs_compared")
+                w.count("events_compared", len(traces[0][0]))
+                w.case(("reentrant-function-pair", name, args, how))
+                if traces[0] != traces[1]:
+                    w.violation("C13/re-entrant-calls-differ-in-the-async-rendering", "{}{} ({}): sync {} vs async {}".format(
+                        name, args, how, traces[0], traces[1]), {"reentrant_function_pair": name})
+    finally:
+        sys.setrecursionlimit(old_limit)
         sync_l.unload()
         async_l.unload()
 
@@ -443,6 +580,7 @@ def run(w) -> None:
         run_coroutine_invariants(w)
         run_signature_pairs(w)
         run_nested_pairs(w)
+        run_reentrant_function_pairs(w)
     w.exhaustive = False
 
 
@@ -452,6 +590,9 @@ def replay(case, w) -> None:
         return
     if "nested_pair" in case:
         run_nested_pairs(w)
+        return
+    if "reentrant_function_pair" in case:
+        run_reentrant_function_pairs(w)
         return
     if "coroutine_invariant" in case:
         run_coroutine_invariants(w)
